@@ -1,3 +1,350 @@
-//! C18 — not yet built
-use crate::ctx::Ctx;
-pub fn run(c: &mut Ctx) { c.notes.push("C18: not implemented".into()); }
+//! C18 — dates convert to PDF date strings and back.
+//!
+//! Real code: `Object::from(chrono::DateTime<Local>|DateTime<Utc>|jiff::Zoned|jiff::Timestamp|time::OffsetDateTime)`,
+//! `Object::as_datetime()` and the three `TryFrom<lopdf DateTime>` parsers.
+//! Oracle: an independent reference formatter / parser for the PDF date form (own civil-from-days arithmetic).
+//! Correspondence: the Lean model instantiated with the field-wise reading of the regenerated format strings.
+//!
+//! chrono's `DateTime<Local>` takes its offset from the `TZ` environment variable through a thread-local
+//! cache: every offset is produced on a fresh thread after setting `TZ` to a POSIX string for that offset
+//! (`<LOC>-05:30:00`); the harness checks that the value really carries the requested offset and counts the
+//! cases where it does not (none expected).
+use crate::codec::*;
+use crate::ctx::{guard, Ctx};
+use crate::rng::Rng;
+use lopdf::{Object, StringFormat};
+use serde_json::json;
+
+#[derive(Clone, Copy, Debug, PartialEq)]
+struct Fields { y: i64, mo: i64, d: i64, h: i64, mi: i64, s: i64, off: i64 }
+
+// ---------------------------------------------------------------- reference arithmetic (Hinnant)
+fn civil_from_days(z: i64) -> (i64, i64, i64) {
+    let z = z + 719468;
+    let era = if z >= 0 { z } else { z - 146096 } / 146097;
+    let doe = z - era * 146097;
+    let yoe = (doe - doe / 1460 + doe / 36524 - doe / 146096) / 365;
+    let y = yoe + era * 400;
+    let doy = doe - (365 * yoe + yoe / 4 - yoe / 100);
+    let mp = (5 * doy + 2) / 153;
+    let d = doy - (153 * mp + 2) / 5 + 1;
+    let m = if mp < 10 { mp + 3 } else { mp - 9 };
+    (if m <= 2 { y + 1 } else { y }, m, d)
+}
+fn days_from_civil(y: i64, m: i64, d: i64) -> i64 {
+    let y = if m <= 2 { y - 1 } else { y };
+    let era = if y >= 0 { y } else { y - 399 } / 400;
+    let yoe = y - era * 400;
+    let doy = (153 * ((m + 9) % 12) + 2) / 5 + d - 1;
+    let doe = yoe * 365 + yoe / 4 - yoe / 100 + doy;
+    era * 146097 + doe - 719468
+}
+fn fields_of(epoch: i64, off: i64) -> Fields {
+    let local = epoch + off;
+    let days = local.div_euclid(86400); let sod = local.rem_euclid(86400);
+    let (y, mo, d) = civil_from_days(days);
+    Fields { y, mo, d, h: sod / 3600, mi: sod / 60 % 60, s: sod % 60, off }
+}
+fn epoch_of(f: &Fields) -> i64 { days_from_civil(f.y, f.mo, f.d) * 86400 + f.h * 3600 + f.mi * 60 + f.s - f.off }
+
+/// reference formatter: D:YYYYMMDDHHmmSS+HH'mm'
+fn ref_format(f: &Fields) -> String {
+    let a = f.off.abs();
+    format!("D:{:04}{:02}{:02}{:02}{:02}{:02}{}{:02}'{:02}'", f.y, f.mo, f.d, f.h, f.mi, f.s, if f.off < 0 { '-' } else { '+' }, a / 3600, a / 60 % 60)
+}
+fn ref_format_z(f: &Fields) -> String { format!("D:{:04}{:02}{:02}{:02}{:02}{:02}Z", f.y, f.mo, f.d, f.h, f.mi, f.s) }
+
+/// reference parser of ISO 32000-1 7.9.4 dates: D:YYYY[MM[DD[HH[mm[SS]]]]][O[HH'[mm']]]  -> (epoch, offset)
+fn ref_parse(s: &str) -> Option<(i64, i64)> {
+    let b = s.as_bytes();
+    let mut i = 0;
+    if b.starts_with(b"D:") { i = 2; }
+    let num = |i: &mut usize, n: usize| -> Option<i64> {
+        if *i + n > b.len() || !b[*i..*i + n].iter().all(|c| c.is_ascii_digit()) { return None; }
+        let v = std::str::from_utf8(&b[*i..*i + n]).ok()?.parse().ok()?; *i += n; Some(v)
+    };
+    let y = num(&mut i, 4)?;
+    let mut v = [1i64, 1, 0, 0, 0];
+    for k in 0..5 { if i < b.len() && b[i].is_ascii_digit() { v[k] = num(&mut i, 2)?; } else { break; } }
+    let mut off = 0i64;
+    if i < b.len() {
+        match b[i] {
+            b'Z' => { i += 1; }
+            b'+' | b'-' => {
+                let neg = b[i] == b'-'; i += 1;
+                let oh = num(&mut i, 2)?; let mut om = 0;
+                if i < b.len() && b[i] == b'\'' { i += 1; }
+                if i < b.len() && b[i].is_ascii_digit() { om = num(&mut i, 2)?; if i < b.len() && b[i] == b'\'' { i += 1; } }
+                off = (oh * 3600 + om * 60) * if neg { -1 } else { 1 };
+            }
+            _ => return None,
+        }
+    }
+    if i != b.len() { return None; }
+    let f = Fields { y, mo: v[0], d: v[1], h: v[2], mi: v[3], s: v[4], off };
+    Some((epoch_of(&f), off))
+}
+
+// ---------------------------------------------------------------- real producers
+fn obj_text(o: &Object) -> String { match o { Object::String(b, _) => String::from_utf8_lossy(b).to_string(), _ => format!("{:?}", o) } }
+fn obj_is_literal(o: &Object) -> bool { matches!(o, Object::String(_, StringFormat::Literal)) }
+
+fn posix_tz(off: i64) -> String {
+    // POSIX: the sign is inverted (west positive)
+    let a = off.abs();
+    format!("<LOC>{}{:02}:{:02}:{:02}", if off > 0 { "-" } else { "+" }, a / 3600, a / 60 % 60, a % 60)
+}
+/// (object, offset actually carried) produced on a fresh thread so that chrono re-reads TZ
+fn chrono_local(epoch: i64, off: i64) -> Result<(Object, i64), (String, String)> {
+    std::env::set_var("TZ", posix_tz(off));
+    let r = std::thread::spawn(move || {
+        crate::ctx::install_panic_hook();
+        guard(|| {
+            use chrono::prelude::*;
+            let dt: DateTime<Local> = Local.timestamp_opt(epoch, 0).single().expect("chrono instant");
+            (Object::from(dt), dt.offset().local_minus_utc() as i64)
+        })
+    }).join().unwrap_or(Err(("thread".into(), "join".into())));
+    std::env::set_var("TZ", "UTC");
+    r
+}
+fn chrono_utc(epoch: i64) -> Object { use chrono::prelude::*; Object::from(Utc.timestamp_opt(epoch, 0).single().expect("chrono instant")) }
+fn jiff_zoned(epoch: i64, off: i64) -> Object {
+    let ts = jiff::Timestamp::from_second(epoch).expect("jiff instant");
+    let tz = jiff::tz::TimeZone::fixed(jiff::tz::Offset::from_seconds(off as i32).expect("jiff offset"));
+    Object::from(ts.to_zoned(tz))
+}
+fn jiff_ts(epoch: i64) -> Object { Object::from(jiff::Timestamp::from_second(epoch).expect("jiff instant")) }
+fn time_odt(epoch: i64, off: i64) -> Object {
+    let t = time::OffsetDateTime::from_unix_timestamp(epoch).expect("time instant")
+        .to_offset(time::UtcOffset::from_whole_seconds(off as i32).expect("time offset"));
+    Object::from(t)
+}
+
+// ---------------------------------------------------------------- real parsers: ok(epoch, offset?) | err
+type Parsed = Result<Option<(i64, Option<i64>)>, (String, String)>;
+fn parse_chrono(o: &Object) -> Parsed {
+    guard(|| { use chrono::prelude::*; o.as_datetime().and_then(|d| DateTime::<Local>::try_from(d).ok()).map(|d| (d.timestamp(), None)) })
+}
+fn parse_jiff(o: &Object) -> Parsed {
+    guard(|| o.as_datetime().and_then(|d| jiff::Zoned::try_from(d).ok()).map(|z| (z.timestamp().as_second(), Some(z.offset().seconds() as i64))))
+}
+fn parse_time(o: &Object) -> Parsed {
+    guard(|| o.as_datetime().and_then(|d| time::OffsetDateTime::try_from(d).ok()).map(|t| (t.unix_timestamp(), Some(t.offset().whole_seconds() as i64))))
+}
+fn show_parsed(p: &Parsed) -> String {
+    match p { Ok(Some((e, Some(o)))) => format!("ok {} {}", e, o), Ok(Some((e, None))) => format!("ok {}", e), Ok(None) => "err".into(), Err((site, _)) => format!("panic {}", site) }
+}
+
+fn fields_req(which: &str, f: &Fields) -> String {
+    let a = f.off.abs();
+    format!("c18.fmt {} {} {} {} {} {} {} {} {} {}", which, f.y, f.mo, f.d, f.h, f.mi, f.s, if f.off < 0 { "-" } else { "+" }, a / 3600, a / 60 % 60)
+}
+
+/// one (instant, offset) pair through the 3 producers, the 2 UTC producers and the 3 parsers
+fn check_pair(c: &mut Ctx, epoch: i64, off: i64, stream: &str) {
+    let f = fields_of(epoch, off);
+    let fz = fields_of(epoch, 0);
+    let expect = ref_format(&f);
+    let expect_z = ref_format_z(&fz);
+    let case = json!({"epoch": epoch, "offset_s": off, "expected": expect});
+    // ---- producers
+    let mut outs: Vec<(&str, Object)> = vec![];
+    match chrono_local(epoch, off) {
+        Ok((o, carried)) => {
+            if carried != off { c.count("chrono_local.offset_not_reached"); }
+            else { outs.push(("chrono_local", o)); }
+        }
+        Err((site, msg)) => c.oracle_fail(&format!("panic@{}", site), &msg, case.clone()),
+    }
+    match guard(|| jiff_zoned(epoch, off)) { Ok(o) => outs.push(("jiff_zoned", o)), Err((site, msg)) => c.oracle_fail(&format!("panic@{}", site), &msg, case.clone()) }
+    match guard(|| time_odt(epoch, off)) { Ok(o) => outs.push(("time_odt", o)), Err((site, msg)) => c.oracle_fail(&format!("panic@{}", site), &msg, case.clone()) }
+    for (which, o) in &outs {
+        let text = obj_text(o);
+        c.count(&format!("fmt.{}", which));
+        c.corr(fields_req(which, &f), format!("ok {}", hex_tok(text.as_bytes())));
+        if text != expect || !obj_is_literal(o) {
+            c.oracle_fail(&format!("fmt:{}", which), "date string differs from D:YYYYMMDDHHmmSS+HH'mm' of the reference formatter",
+                json!({"epoch": epoch, "offset_s": off, "expected": expect, "got": text}));
+        }
+    }
+    let mut outs_z: Vec<(&str, Object)> = vec![];
+    match guard(|| chrono_utc(epoch)) { Ok(o) => outs_z.push(("chrono_utc", o)), Err((site, msg)) => c.oracle_fail(&format!("panic@{}", site), &msg, case.clone()) }
+    match guard(|| jiff_ts(epoch)) { Ok(o) => outs_z.push(("jiff_ts", o)), Err((site, msg)) => c.oracle_fail(&format!("panic@{}", site), &msg, case.clone()) }
+    if stream != "offsets" || off == 0 {
+        for (which, o) in &outs_z {
+            let text = obj_text(o);
+            c.count(&format!("fmt.{}", which));
+            c.corr(fields_req(which, &fz), format!("ok {}", hex_tok(text.as_bytes())));
+            if text != expect_z { c.oracle_fail(&format!("fmt:{}", which), "UTC date string differs from D:YYYYMMDDHHmmSSZ", json!({"epoch": epoch, "expected": expect_z, "got": text})); }
+        }
+    }
+    // ---- parsers: every producer's string through every backend (9 ordered pairs + 2x3 for the Z form)
+    let parsers: [(&str, fn(&Object) -> Parsed); 3] = [("chrono", parse_chrono), ("jiff", parse_jiff), ("time", parse_time)];
+    for (which, o) in outs.iter() {
+        for (pname, p) in parsers.iter() {
+            let r = p(o);
+            c.count(&format!("pair.{}->{}", which, pname));
+            c.corr(format!("c18.parse {} {}", pname, show_obj(o)), show_parsed(&r));
+            match &r {
+                Ok(Some((e, o2))) => {
+                    if *e != epoch || o2.map_or(false, |x| x != off) {
+                        c.oracle_fail(&format!("rt:{}->{}", which, pname), "parsing the date string back gives another instant / offset",
+                            json!({"epoch": epoch, "offset_s": off, "text": obj_text(o), "got": show_parsed(&r)}));
+                    }
+                }
+                Ok(None) => c.oracle_fail(&format!("rt-err:{}->{}", which, pname), "the date string does not parse back", json!({"epoch": epoch, "offset_s": off, "text": obj_text(o)})),
+                Err((site, msg)) => c.oracle_fail(&format!("panic@{}", site), msg, case.clone()),
+            }
+        }
+    }
+    if stream != "offsets" || off == 0 {
+        for (which, o) in outs_z.iter() {
+            for (pname, p) in parsers.iter() {
+                let r = p(o);
+                c.count(&format!("pair.{}->{}", which, pname));
+                c.corr(format!("c18.parse {} {}", pname, show_obj(o)), show_parsed(&r));
+                match &r {
+                    Ok(Some((e, o2))) => {
+                        if *e != epoch || o2.map_or(false, |x| x != 0) {
+                            c.oracle_fail(&format!("rt:{}->{}", which, pname), "parsing the Z date string back gives another instant / offset", json!({"epoch": epoch, "text": obj_text(o), "got": show_parsed(&r)}));
+                        }
+                    }
+                    // F-C18-a: the time backend has a single format with a mandatory numeric offset — witness stream
+                    Ok(None) if *pname == "time" => c.count("zform.time_rejects(F-C18-a)"),
+                    Ok(None) => c.oracle_fail(&format!("rt-err:{}->{}", which, pname), "the Z date string does not parse back", json!({"epoch": epoch, "text": obj_text(o)})),
+                    Err((site, msg)) => c.oracle_fail(&format!("panic@{}", site), msg, case.clone()),
+                }
+            }
+        }
+    }
+}
+
+/// the text inside `DateTime("…")` of the Debug rendering (the field is private)
+fn debug_inner(d: &lopdf::Object) -> Option<String> {
+    let dt = d.as_datetime()?;
+    let s = format!("{:?}", dt);
+    let inner = s.strip_prefix("DateTime(\"")?.strip_suffix("\")")?;
+    let mut out = String::new();
+    let mut it = inner.chars().peekable();
+    while let Some(ch) = it.next() {
+        if ch != '\\' { out.push(ch); continue; }
+        match it.next()? {
+            'n' => out.push('\n'), 't' => out.push('\t'), 'r' => out.push('\r'), '0' => out.push('\0'),
+            '\\' => out.push('\\'), '"' => out.push('"'), '\'' => out.push('\''),
+            'u' => { it.next(); let mut h = String::new(); while let Some(c2) = it.next() { if c2 == '}' { break; } h.push(c2); } out.push(char::from_u32(u32::from_str_radix(&h, 16).ok()?)?); }
+            _ => return None,
+        }
+    }
+    Some(out)
+}
+
+pub fn run(c: &mut Ctx) {
+    c.rule = "all 2879 UTC offsets -23:59..+23:59 at a fixed instant (exhaustive in both tiers) x 3 offset-carrying producers \
+(chrono DateTime<Local> via TZ on a fresh thread, jiff Zoned, time OffsetDateTime) x 3 parsers = 9 ordered backend pairs, plus the two UTC \
+producers (Z form) x 3 parsers; sampled (instant, offset) pairs over years 0001-9999 incl. leap days, year/century boundaries and the ends of \
+the range; the specification's date-only and minute-precision examples; as_datetime on arbitrary objects. Non-trivial = offset != 0 or \
+year < 1000 or a malformed object; distinct by (instant, offset) / request.".into();
+    std::env::set_var("TZ", "UTC");
+    // ---------------------------------------------------------------- all offsets at a fixed instant
+    let fixed = 1_709_210_096i64; // 2024-02-29T12:34:56Z
+    let mut idx = 0u64;
+    for m in -(23 * 60 + 59)..=(23 * 60 + 59) {
+        let Some(_r) = c.case("offsets", idx) else { idx += 1; continue }; idx += 1;
+        let off = m as i64 * 60;
+        if off != 0 { c.nontrivial(&format!("{} {}", fixed, off)); }
+        check_pair(c, fixed, off, "offsets");
+    }
+    // ---------------------------------------------------------------- sampled instants
+    let min_e = days_from_civil(1, 1, 2) * 86400;            // keep local time inside 0001..9999 for every offset
+    let max_e = days_from_civil(9999, 12, 30) * 86400;
+    let mut special: Vec<(i64, i64)> = vec![];
+    for (y, mo, d, h, mi, s) in [(1i64, 1i64, 2i64, 0i64, 0i64, 0i64), (42, 3, 15, 1, 2, 3), (999, 12, 31, 23, 59, 59), (1000, 1, 1, 0, 0, 0), (1582, 10, 10, 12, 0, 0),
+                                 (1600, 2, 29, 23, 59, 59), (1900, 2, 28, 23, 59, 59), (1900, 3, 1, 0, 0, 0), (1969, 12, 31, 23, 59, 59), (1970, 1, 1, 0, 0, 0),
+                                 (1999, 12, 31, 23, 59, 59), (2000, 1, 1, 0, 0, 0), (2000, 2, 29, 12, 0, 0), (2023, 2, 28, 23, 59, 59), (2024, 2, 29, 0, 0, 0),
+                                 (2024, 12, 31, 23, 59, 59), (2038, 1, 19, 3, 14, 8), (2100, 2, 28, 23, 59, 59), (9999, 12, 30, 0, 0, 0)] {
+        let e = days_from_civil(y, mo, d) * 86400 + h * 3600 + mi * 60 + s;
+        for off in [0i64, 60, -60, 19800, -34200, 86340, -86340, 3600, -3600 * 8] { special.push((e, off)); }
+    }
+    for (i, (e, off)) in special.iter().enumerate() {
+        let Some(_r) = c.case("special", i as u64) else { continue };
+        if *e + *off < min_e - 86400 || *e + *off > max_e + 86399 { continue; }
+        c.nontrivial(&format!("{} {}", e, off));
+        check_pair(c, *e, *off, "special");
+    }
+    let n = c.n(600, 20000);
+    for i in 0..n {
+        let Some(mut r) = c.case("sampled", i) else { continue };
+        let e = match r.below(4) { 0 => min_e + r.below((max_e - min_e) as u64) as i64,
+                                   1 => days_from_civil(1 + r.below(999) as i64, 1 + r.below(12) as i64, 1 + r.below(28) as i64) * 86400 + r.below(86400) as i64,
+                                   2 => { let y = 1 + r.below(9998) as i64; days_from_civil(y, *r.pick(&[1, 12]), *r.pick(&[1, 31])) * 86400 + *r.pick(&[0i64, 86399, 43200]) }
+                                   _ => { let y = 4 * (1 + r.below(2499) as i64); days_from_civil(y, 2, 28) * 86400 + r.below(2 * 86400) as i64 } };
+        let e = e.clamp(min_e, max_e);
+        let off = (r.range(-(23 * 60 + 59), 23 * 60 + 59)) * 60;
+        c.nontrivial(&format!("{} {}", e, off));
+        check_pair(c, e, off, "sampled");
+        if i < 3 { let f = fields_of(e, off); c.sample(json!({"stream": "sampled", "epoch": e, "offset_s": off, "date_string": ref_format(&f)})); }
+    }
+    // ---------------------------------------------------------------- forms given in the specification
+    let spec_forms: [(&str, bool); 8] = [("D:199812231952-08'00'", true), ("D:20040229", true), ("D:20240229123456+05'30'", true), ("D:20240229123456Z", true),
+        ("D:202402291234Z", true), ("D:20240229123456-00'30'", true), ("D:00010102000000+00'00'", true), ("D:2024022912345", false)];
+    for (i, (text, valid)) in spec_forms.iter().enumerate() {
+        let Some(_r) = c.case("forms", i as u64) else { continue };
+        let o = Object::string_literal(*text);
+        c.nontrivial(text);
+        let reference = ref_parse(text);
+        for (pname, p) in [("chrono", parse_chrono as fn(&Object) -> Parsed), ("jiff", parse_jiff), ("time", parse_time)] {
+            let r = p(&o);
+            c.corr(format!("c18.parse {} {}", pname, show_obj(&o)), show_parsed(&r));
+            c.count(&format!("forms.{}.{}", pname, if matches!(r, Ok(Some(_))) { "ok" } else { "err" }));
+            match (&r, reference, valid) {
+                (Err((site, msg)), _, _) => c.oracle_fail(&format!("panic@{}", site), msg, json!({"text": text})),
+                (Ok(Some((e, o2))), Some((re, ro)), true) => if *e != re || o2.map_or(false, |x| x != ro) {
+                    c.oracle_fail(&format!("form:{}", pname), "specification form parsed to another instant", json!({"text": text, "got": show_parsed(&r), "expected": [re, ro]})) },
+                // F-C18-a: only the full form with a numeric offset is known to the time backend
+                (Ok(None), Some(_), true) if pname == "time" && !(text.len() == 23 && !text.ends_with('Z')) => c.count("forms.time_rejects(F-C18-a)"),
+                (Ok(None), Some(_), true) => c.oracle_fail(&format!("form-err:{}", pname), "a form given in the specification does not parse", json!({"text": text})),
+                _ => {}
+            }
+        }
+    }
+    // witnesses of F-C18-a
+    if let Some(_r) = c.case("witness", 0) {
+        let z = Object::string_literal("D:20240229123456Z");
+        let d = Object::string_literal("D:20040229");
+        let m = Object::string_literal("D:199812231952-08'00'");
+        let rej = [&z, &d, &m].iter().filter(|o| matches!(parse_time(o), Ok(None))).count();
+        c.witness("F-C18-a", rej == 3, &format!("time backend rejects {} of the 3 forms D:…Z, D:YYYYMMDD, D:YYYYMMDDHHmm-08'00' (chrono and jiff accept all)", rej));
+        let t = Object::from(time::Time::MIDNIGHT);
+        c.witness("F-C18-b", obj_text(&t) == "D:%Y%m%d%H%M%SZ", &format!("Object::from(time::Time::MIDNIGHT) = {:?}", obj_text(&t)));
+    }
+    if let Some(n) = c.counters.get("chrono_local.offset_not_reached").cloned() {
+        c.notes.push(format!("chrono DateTime<Local> could not be given the requested offset through TZ in {} cases (those cases ran without the chrono Local producer)", n));
+    }
+    // ---------------------------------------------------------------- as_datetime on arbitrary objects
+    let n = c.n(800, 20000);
+    for i in 0..n {
+        let Some(mut r) = c.case("strip", i) else { continue };
+        let o = match r.below(6) {
+            0 => r.pick(&[Object::Null, Object::Integer(20240229), Object::Name(b"D:2024".to_vec()), Object::Array(vec![])]).clone(),
+            1 => { let n = r.usize(24); Object::String(r.bytes(n), StringFormat::Literal) }
+            2 => { let n = r.usize(30); Object::String((0..n).map(|_| *r.pick(b"D:'0123456789+-Zd;\"\\ \n")).collect(), StringFormat::Hexadecimal) }
+            3 => { let s: String = (0..r.usize(8)).map(|_| *r.pick(&['D', ':', '\'', 'é', '€', '😀', '1', 'Z'])).collect(); Object::string_literal(s) }
+            _ => { let f = fields_of(r.range(-60_000_000_000, 250_000_000_000), r.range(-1439, 1439) * 60); let mut t = ref_format(&f).into_bytes();
+                   if r.chance(1, 3) && !t.is_empty() { let p = r.usize(t.len()); t[p] = *r.pick(b"D:'9Z+"); } Object::String(t, StringFormat::Literal) }
+        };
+        let req = format!("c18.strip {}", show_obj(&o));
+        c.nontrivial(&req);
+        match guard(|| (o.as_datetime().is_some(), debug_inner(&o))) {
+            Ok((some, inner)) => {
+                c.count(if some { "strip.some" } else { "strip.none" });
+                let rep = match (&some, &inner) { (true, Some(t)) => format!("ok {}", hex_tok(t.as_bytes())), (false, _) => "none".into(), (true, None) => "undecodable-debug".into() };
+                c.corr(req.clone(), rep);
+                // oracle: exactly the bytes other than D : ' in order, when they are UTF-8; None otherwise / for non-strings
+                let exp: Option<Vec<u8>> = match &o { Object::String(b, _) => { let v: Vec<u8> = b.iter().cloned().filter(|x| *x != b'D' && *x != b':' && *x != b'\'').collect(); if std::str::from_utf8(&v).is_ok() { Some(v) } else { None } } _ => None };
+                if exp != inner.map(|t| t.into_bytes()) { c.oracle_fail("strip", "as_datetime is not the input without D : '", json!({"request": req})); }
+            }
+            Err((site, msg)) => c.oracle_fail(&format!("panic@{}", site), &msg, json!({"request": req})),
+        }
+    }
+}
